@@ -1,28 +1,31 @@
 package main
 
 import (
-	"verif/harness/internal/c06"
-	"verif/harness/internal/c14"
-	"verif/harness/internal/c13"
 	"verif/harness/internal/c01"
-	"verif/harness/internal/c16"
-	"verif/harness/internal/c08"
-	"verif/harness/internal/c04"
-	"verif/harness/internal/c03"
-	"verif/harness/internal/c15"
 	"verif/harness/internal/c02"
+	"verif/harness/internal/c03"
+	"verif/harness/internal/c04"
+	"verif/harness/internal/c05"
+	"verif/harness/internal/c06"
 	"verif/harness/internal/c07"
+	"verif/harness/internal/c08"
 	"verif/harness/internal/c09"
-	"verif/harness/internal/c18"
-	"verif/harness/internal/c12"
-	"verif/harness/internal/c11"
 	"verif/harness/internal/c10"
+	"verif/harness/internal/c11"
+	"verif/harness/internal/c12"
+	"verif/harness/internal/c13"
+	"verif/harness/internal/c14"
+	"verif/harness/internal/c15"
+	"verif/harness/internal/c16"
 	"verif/harness/internal/c17"
+	"verif/harness/internal/c18"
 	"verif/harness/internal/c19"
 	"verif/harness/internal/c20"
 )
 
 func init() {
+	checks["C05"] = c05.Run
+	workers["c05"] = c05.Worker
 	checks["C06"] = c06.Run
 	workers["c06"] = c06.Worker
 	checks["C14"] = c14.Run
